@@ -5,6 +5,8 @@ use std::io::Write;
 use std::panic::catch_unwind;
 
 mod ops;
+mod ops_c29;
+// ADD-MODS-HERE
 
 fn main() {
     std::panic::set_hook(Box::new(|_| {}));
